@@ -89,14 +89,19 @@ HasCR(m) == \E i \in 1..Len(m) : m[i] = CR
 (* C06 monitor.  m = message bytes in the queue, o = bytes the client put  *)
 (* on the wire between the 354 reply and the reply to the final dot,       *)
 (* res = "ok" (payload sent completely) or "refused" (client gave up, in   *)
-(* which case it must not have sent an end-of-data sequence).              *)
+(* which case it must not have sent an end-of-data sequence) or "failed"   *)
+(* (a failing call or a lost connection at an arbitrary point).            *)
 (* Returns "" when the property holds for this transmission, else the name *)
 (* of the clause that fails.                                               *)
 (***************************************************************************)
+RECURSIVE EncVerdict(_, _, _)
 EncVerdict(m, o, res) ==
   LET v == <<CR, LF>> \o o                      \* the payload follows the CR LF of the DATA command line
       eods == Occ(v, EOD)
-  IN IF res # "ok"
+  IN IF res = "failed"      \* something failed (a system call, the connection) and the client reports the message as not delivered:
+       THEN (IF eods = {} THEN ""                   \* abandoned before or inside DATA: no end-of-data may have been sent;
+             ELSE EncVerdict(m, o, "ok"))           \* or the failure came after the final dot: what was sent is the whole message
+     ELSE IF res # "ok"
        THEN (IF eods # {} THEN "EodInRefusedPayload"
              ELSE IF CompleteA(m) /\ CompleteB(m) THEN "RefusedCompleteMessage"   \* a complete message must be sent
              ELSE "")
